@@ -581,7 +581,7 @@ func (g *goBuilder) mapValue(v *Val, t types.Type, mt *types.Map) (string, error
 			return "", err
 		}
 		elems = append(elems, fmt.Sprintf("%d: %s", k, s))
-		if len(elems) > 5000 {
+		if len(elems) > 70000 {
 			return "", fmt.Errorf("map too large for replay")
 		}
 	}
